@@ -390,6 +390,7 @@ def run_shard(desc, seed, tier, col):
         if case['long']:
             for f in run_long(case, col):
                 col.fail(f['sub'], f['kind'], f['msg'], dict(case, long_only=True), sig=f['sig'], obs=f.get('obs'))
+        col.begin(case)
         for f in run_case(case, col, scheds):
             key = (f['sub'], f['kind'], f['sig'])
             if key in seen:
